@@ -1,51 +1,72 @@
 import PfdlModel.Basic
 /-! The `expression` rule of the generated parser (`PFDLParser.expression`, ANTLR's precedence-climbing
-    rewrite of the left-recursive rule) over the precedence table re-extracted from `PFDLParser.py`,
-    producing the tree `PFDLTreeVisitor.visitExpression` builds.  Core Lean only. -/
+    rewrite of the left-recursive rule), producing the tree `PFDLTreeVisitor.visitExpression` builds.
+    The parser is generic in the table (operator -> precedence of `precpred`, minimum precedence of the right
+    operand) and the operand level of `!`; `parse` instantiates it with the table re-extracted from
+    `PFDLParser.py`.  Core Lean only. -/
 namespace Pfdl.ExprParse
 open Pfdl Generated
 
-/-- expression tokens; a `value` (number with sign, boolean, string, attribute access) is one atom that
-    carries its visitor image -/
 inductive Tok where
   | lpar | rpar | bang
   | op (o : String)
   | atom (e : Expr)
 deriving Repr, Inhabited
 
+abbrev Table := List (String × Nat × Nat)
+
 mutual
-/-- `expression(_p)`: a primary (parenthesised expression, negation, value), then the operator loop -/
-def parseE : Nat → Nat → List Tok → Option (Expr × List Tok)
+def parseE (T : Table) (u : Nat) : Nat → Nat → List Tok → Option (Expr × List Tok)
   | 0, _, _ => none
   | fuel + 1, p, .lpar :: rest =>
-    match parseE fuel 0 rest with
-    | some (e, .rpar :: rest') => loopE fuel p (.paren e) rest'
+    match parseE T u fuel 0 rest with
+    | some (e, .rpar :: rest') => loopE T u fuel p (.paren e) rest'
     | _ => none
   | fuel + 1, p, .bang :: rest =>
-    match parseE fuel unaryPrec rest with
-    | some (e, rest') => loopE fuel p (.not e) rest'
+    match parseE T u fuel u rest with
+    | some (e, rest') => loopE T u fuel p (.not e) rest'
     | none => none
-  | fuel + 1, p, .atom a :: rest => loopE fuel p a rest
+  | fuel + 1, p, .atom a :: rest => loopE T u fuel p a rest
   | _ + 1, _, _ => none
-/-- the `while` loop of the rule: an operator whose precedence is at least `_p` extends the left operand -/
-def loopE : Nat → Nat → Expr → List Tok → Option (Expr × List Tok)
+def loopE (T : Table) (u : Nat) : Nat → Nat → Expr → List Tok → Option (Expr × List Tok)
   | 0, _, _, _ => none
   | fuel + 1, p, lhs, .op o :: rest =>
-    match precTable.lookup o with
+    match T.lookup o with
     | some (prec, rprec) =>
       if p ≤ prec then
-        match parseE fuel rprec rest with
-        | some (rhs, rest') => loopE fuel p (.bin o lhs rhs) rest'
+        match parseE T u fuel rprec rest with
+        | some (rhs, rest') => loopE T u fuel p (.bin o lhs rhs) rest'
         | none => none
       else some (lhs, .op o :: rest)
     | none => some (lhs, .op o :: rest)
   | _ + 1, _, lhs, ts => some (lhs, ts)
 end
 
-/-- a whole expression: all tokens must be consumed -/
-def parse (ts : List Tok) : Option Expr :=
-  match parseE (2 * ts.length + 2) 0 ts with
+def parseWith (T : Table) (u : Nat) (ts : List Tok) : Option Expr :=
+  match parseE T u (2 * ts.length + 2) 0 ts with
   | some (e, []) => some e
   | _ => none
+
+/-- the tokens of a tree: in-order, parentheses exactly where the tree has a `paren` node -/
+def flat : Expr → List Tok
+  | .paren e => .lpar :: flat e ++ [.rpar]
+  | .not e => .bang :: flat e
+  | .bin o l r => flat l ++ .op o :: flat r
+  | e => [.atom e]
+
+def isLeaf : Expr → Bool
+  | .paren _ | .not _ | .bin _ _ _ => false
+  | _ => true
+
+/-- the loop levels that are open along the right edge of a tree -/
+def spine (T : Table) (u : Nat) : Expr → List Nat
+  | .not e => u :: spine T u e
+  | .bin o _ r => match T.lookup o with
+    | some (_, rp) => rp :: spine T u r
+    | none => []
+  | _ => []
+
+/-- the parser of the implementation: the table and the operand level of `!` as re-extracted from `PFDLParser.py` -/
+def parse (ts : List Tok) : Option Expr := parseWith precTable unaryPrec ts
 
 end Pfdl.ExprParse
